@@ -144,7 +144,7 @@ func Point(kind, res string, mut bool) {
 	}
 	// the step now executes: fold what the thread can see of shared memory
 	foldMem(t, kind, res)
-	e.Trace = append(e.Trace, fmt.Sprintf("t%d:%s:%s", t.id, kind, res))
+	e.Trace = append(e.Trace, fmt.Sprintf("t%d:%s:%s", t.id, kind, base(res)))
 }
 
 // Block parks the current thread until cond() is false (modelled lock wait).
@@ -365,4 +365,13 @@ func Explore(bound int, subtree []int, maxExec int, mk func() []func(), check fu
 	rec(append([]int{}, subtree...))
 	st.States = len(seen)
 	return st
+}
+
+func base(p string) string {
+	for i := len(p) - 1; i >= 0; i-- {
+		if p[i] == '/' {
+			return p[i+1:]
+		}
+	}
+	return p
 }
